@@ -1,2 +1,26 @@
-(* C19 (construction API): placeholder, see Build.v *)
-From AJ Require Import Common.Util Graph.GModel.
+(* C19: the executable statement evaluated on the implementation's observed outcome, and the proof
+   that the code model's own outcome satisfies it. *)
+From AJ Require Import Common.Util Graph.GSpecs Graph.Build Graph.BuildProofs.
+
+Definition err_code (e : option error) : nat :=
+  match e with None => 0 | Some KeyError => 1 end.
+
+Definition opt_eqb (a b : option nat) : bool :=
+  match a, b with
+  | None, None => true
+  | Some x, Some y => Nat.eqb x y
+  | _, _ => false
+  end.
+
+(* [p]: the program; ids of jobs/schedulers are < n, ids of sequences < nq; the o_* are what was
+   observed in the implementation after running p (o_err: 0 no exception, 1 KeyError, anything
+   else another exception).  True iff that is what the documentation says: same exception, same
+   sequences (as lists), same required sets and scheduler contents (as sets). *)
+Definition c19_spec_b (p : list stmt) (n nq : nat)
+  (o_req o_mem o_seqs : nat -> list nat) (o_ss : nat -> option nat) (o_err : nat) : bool :=
+  let st := fst (exec_doc p) in
+  Nat.eqb o_err (err_code (snd (exec_doc p)))
+  && forallb (fun j => same_set (o_req j) (req st j)) (seqn n)
+  && forallb (fun s => same_set (o_mem s) (members st s)) (seqn n)
+  && forallb (fun q => list_eqb (o_seqs q) (seqs st q)) (seqn nq)
+  && forallb (fun q => opt_eqb (o_ss q) (seq_sched st q)) (seqn nq).
